@@ -222,6 +222,11 @@ def rule_conc(filter_names=None):
                         o.undecide(prog.pretty[wp], "flag-published-on-failure", msg_)
                     else:
                         o.check(verdict, prog.pretty[wp], "flag-published-on-failure", msg_, sp_)
+            # --- scratch containers of a worker do not carry one row's contents into the next
+            for (sp, sb, skey, wc) in ws:
+                for wp in [wc] + [c for c in crate.fn_paths() if prog.fns[c].get("parent") == wc]:
+                    for (ok_, sp_, msg_) in row_local_scratch(crate, wp):
+                        o.check(ok_, prog.pretty[wp], "row-local-scratch", msg_, sp_)
             # --- no thread-count dependent shortcut around the parallel section
             for (x_, sp_) in ap_fast_paths(crate, root, ws):
                 o.check(False, who, "thread-count-fast-path", "a branch on a value derived from available_parallelism() returns a result "
@@ -777,3 +782,81 @@ def failure_published(crate, wp):
     if bad_uncertain:
         return ("undecided", None, "whether a failed pair is always published depends on a local the rule does not follow")
     return (True, sp, "")
+
+
+CONTAINER_NAMES = ("Vec", "BTreeSet", "BTreeMap", "VecDeque", "BinaryHeap", "HashSet", "HashMap", "String")
+RESET_CALLS = ("::clear",)
+FILL_CALLS = ("::push", "::push_back", "::insert", "::extend", "::extend_from_slice", "::append", "::resize", "::truncate", "::retain",
+              "::sort", "::sort_unstable", "::dedup", "::reserve")
+
+
+def row_local_scratch(crate, wp):
+    """[(ok, span, message)]: in a worker's loop over its own row range, a local container that was created before the loop,
+    is refilled inside it and is read inside it must be emptied (clear() / reassigned) on every path of the iteration before
+    it is read; otherwise what a later row sees depends on which rows share a worker, i.e. on the thread count"""
+    an = crate.an(wp)
+    fx = crate.fx(wp)
+    out = []
+    loops = []
+    for ev in an.events:
+        if ev["k"] == "call" and ev["key"] == ITER_NEXT:
+            d = fx.iter_desc(ev)
+            if d and d != "CYCLE" and d[0] == "agg" and d[1] == "adt" and d[2][0].endswith("ops::range::Range"):
+                h = an.cfg.loop_of(ev["b"])
+                if h is not None:
+                    loops.append((h, an.cfg.loops[h]))
+    if not loops:
+        return out
+
+    def mentions_region(t, R):
+        if isinstance(t, tuple) and t:
+            if t[0] in ("at", "addr", "mem") and t[1] == R:
+                return True
+            return any(mentions_region(x, R) for x in t if isinstance(x, tuple))
+        return False
+    for R, ri in an.region_info.items():
+        if not (R.startswith("L") and R[1:].isdigit() and ri["ty"].get("k") == "adt" and ri["ty"].get("name") in CONTAINER_NAMES):
+            continue
+        for h, body in loops:
+            # outermost row loop only: the container is created outside it
+            creates = [ev for ev in an.events if ((ev["k"] == "store" and ev["region"] == R) or
+                                                  (ev["k"] == "call" and _dest_region(an, ev) == R))]
+            if not creates or any(ev["b"] in body for ev in creates):
+                continue
+            resets, fills, reads = [], [], []
+            for ev in an.events:
+                if ev["b"] not in body:
+                    continue
+                if ev["k"] == "store" and ev["region"] == R:
+                    resets.append(ev)
+                    continue
+                if ev["k"] != "call" or not ev["key"]:
+                    continue
+                a0 = ev["args"][0] if ev["args"] else None
+                direct = a0 is not None and a0[0] == "addr" and a0[1] == R and a0[2] is None
+                if direct and ev["key"].endswith(RESET_CALLS):
+                    resets.append(ev)
+                elif direct and ev["key"].endswith(FILL_CALLS):
+                    fills.append(ev)
+                elif _dest_region(an, ev) == R:
+                    resets.append(ev)
+                elif any(mentions_region(a, R) for a in ev["args"]):
+                    reads.append(ev)
+            if not fills or not reads:
+                continue
+            for r in reads:
+                ok = any(an.cfg.dominates(s_["b"], r["b"]) for s_ in resets)
+                out.append((ok, r["span"], "a scratch container created before the row loop is read here without having been emptied on "
+                            "every path of this iteration: it can still hold the previous row's contents"))
+    return out
+
+
+def _dest_region(an, ev):
+    t = an.blocks[ev["b"]]["term"]
+    if t.get("k") != "call" or t.get("dest") is None:
+        return None
+    try:
+        md, nm, _ = an.walk_place(t["dest"])
+    except Exception:
+        return None
+    return nm if md == "mem" else None
